@@ -411,6 +411,8 @@ def check_case(case: dict[str, Any], ctx: Any = None) -> list[str]:
     frontier: list[tuple[Any, Any]] = [(DerivationTree(NonTerminal("<start>")), regex)]
     seen_hist: set[Any] = set()
     visited = 0
+    spent = 0
+    exhausted = 0
     while frontier and visited < case.get("max_histories", 60) and not [m for m in msgs if not m.startswith("[known:")]:
         tree, r = frontier.pop(0)
         h = history_of(tree)
@@ -418,12 +420,29 @@ def check_case(case: dict[str, Any], ctx: Any = None) -> list[str]:
             continue
         seen_hist.add(tuple(h))
         visited += 1
+        if spent > 40000:
+            # the histories of this spec have used their share of the budget (deep copies and prefix parses grow with
+            # the history): go on with the next spec
+            if ctx is not None:
+                ctx.count("spec_budget_used_up")
+            break
         try:
-            with Fuel(6000, 150):
-                pred = forecaster.predict(tree)
+            with Fuel(6000, 150) as fuel:
+                fuel.max_created = 60000   # parse states created (admitted or not)
+                fuel.max_nodes = 150000    # derivation-tree nodes built (deep copies of the history)
+                try:
+                    pred = forecaster.predict(tree)
+                finally:
+                    spent += fuel.states
         except FuelExhausted:
             if ctx is not None:
                 ctx.count("inconclusive_fuel")
+            exhausted += 1
+            if exhausted >= 3:
+                # forecasting on this spec keeps running into the prefix-mode divergence (known finding C06/prefix-mode)
+                if ctx is not None:
+                    ctx.count("spec_given_up_after_3_budget_hits")
+                break
             continue
         except Exception as e:
             msgs.append(f"history {h}: predict raised {type(e).__name__}: {e}")
@@ -489,10 +508,18 @@ def run_shard(ctx: Any) -> None:
     n = 100 if ctx.tier == "quick" else 1500
     depth = 5 if ctx.tier == "quick" else 7
 
+    import time as _time  # diagnostics only: which spec costs most (never part of a verdict)
+
     @given(protocols())
     def test(proto: dict[str, Any]) -> None:
         case = {"proto": proto, "depth": depth, "max_histories": 40 if ctx.tier == "quick" else 150}
-        msgs = [m for m in check_case(case, ctx) if not m.startswith("[known:")]
+        t0 = _time.time()
+        all_msgs = check_case(case, ctx)
+        dt = _time.time() - t0
+        if dt > ctx.notes.get("max_seconds_per_spec", 0):
+            ctx.notes["max_seconds_per_spec"] = round(dt, 1)
+            ctx.notes["slowest_spec"] = [render(proto).split("\n\n")[0][:400]]
+        msgs = [m for m in all_msgs if not m.startswith("[known:")]
         if msgs:
             ctx.fail(case, msgs)
 
